@@ -1,6 +1,9 @@
 //! E1 `sysmc`: the real crate + dependency shims under `detsched` (see /verif/DESIGN.md §2.1).
+mod c01;
 mod c05;
+mod c07;
 mod c08;
+mod c09;
 mod c10;
 mod c14;
 mod c15;
@@ -15,6 +18,8 @@ use std::sync::Arc;
 
 fn harness(name: &str, p: &Value) -> (Arc<util::Mk>, Box<dyn FnMut(&ds::RunResult) -> Option<(String, String)>>) {
     match name {
+        "c01_race" => (c01::mk_race(p), Box::new(c01::judge_race)),
+        "c07_window" => (c07::mk_window(p), Box::new(c07::judge_window)),
         "c08_callers" => (c08::mk_callers(p), Box::new(c08::judge_callers)),
         "c15_lifecycle" => (c15::mk_lifecycle(p), Box::new(c15::judge_lifecycle)),
         _ => {
@@ -72,14 +77,23 @@ fn replay(path: &str) {
 
 fn main() {
     ds::silence_panics();
+    let raw: Vec<String> = std::env::args().collect();
+    if raw.len() == 4 && raw[1] == "--hist-child" {
+        c08::hist_child(&raw[2], &raw[3]);
+        return;
+    }
     let args = vcommon::parse_args();
     if let Some(p) = &args.replay {
         replay(p);
         return;
     }
     let res = match args.subcheck.as_str() {
+        "c01_race" => c01::run(&args),
+        "c07_window" => c07::run(&args),
         "c05_conv" | "c06_precise" => c05::run(&args, &args.subcheck.clone()),
         "c08_callers" => c08::callers(&args),
+        "c08_shapes" => c08::shapes(&args),
+        "c09_faults" => c09::run(&args),
         "c10_static" => c10::run(&args),
         "c14_attrib" => c14::run(&args),
         "c15_lifecycle" => c15::lifecycle(&args),
